@@ -285,3 +285,35 @@ mod c03 {
         kani::cover!(r.is_err(), "primitive failure");
     }
 }
+
+mod c15 {
+    use super::*;
+
+    // TIER: quick
+    // KIND: complete
+    #[kani::proof]
+    #[kani::unwind(15)]
+    fn c15_get_iv_injective() {
+        let (f1, c1, n1): (u8, u32, u64) = (kani::any(), kani::any(), kani::any());
+        let (f2, c2, n2): (u8, u32, u64) = (kani::any(), kani::any(), kani::any());
+
+        let mut iv1 = crypto::AEAD_NONCE_ZEROED;
+        let mut iv2 = crypto::AEAD_NONCE_ZEROED;
+        let r1 = get_iv(f1, c1, n1, &mut iv1);
+        let r2 = get_iv(f2, c2, n2, &mut iv2);
+
+        kani::assert(r1.is_ok() && r2.is_ok(), "C15.get_iv.never_fails");
+        let same = *iv1.access() == *iv2.access();
+        kani::assert(
+            same == (f1 == f2 && c1 == c2 && n1 == n2),
+            "C15.get_iv.injective_in_flags_counter_node",
+        );
+        // the counter occupies bytes 1..5 (little endian): a different counter alone changes the nonce
+        kani::assert(
+            iv1.access()[1..5] == c1.to_le_bytes(),
+            "C15.get_iv.counter_bytes",
+        );
+        kani::cover!(same, "equal triples");
+        kani::cover!(!same && f1 == f2 && n1 == n2, "only the counter differs");
+    }
+}
